@@ -26,6 +26,8 @@ def templates():
     T["subs_capture_var"] = (3, lambda n: subs(reduce_("add", L("x", n[0], n[1]), ((n[0], 2),)), ((n[1], var(n[2], ("bint", 2))),)))
     T["subs_capture_tensor"] = (3, lambda n: subs(reduce_("add", L("x", n[0], n[1]), ((n[0], 2),)), ((n[1], L("ix", n[2], carrier=("int", 2))),)))
     T["lambda_reduce"] = (3, lambda n: lambda_(n[0], 2, binary("add", L("x", n[0], n[1]), reduce_("add", L("y", n[2], n[0]), ((n[2], 2),)))))
+    T["lambda_shadow"] = (3, lambda n: binary("add", lambda_(n[0], 2, reduce_("add", L("x", n[0], n[1]), ((n[0], 2),))), L("y", n[2], shape=(2,))))
+    T["lambda_unused"] = (3, lambda n: lambda_(n[0], 2, reduce_("max", L("x", n[1], n[2]), ((n[2], 2),))))
     T["lambda_getitem_subs"] = (3, lambda n: subs(lambda_(n[0], 2, L("x", n[0], n[1])), ((n[1], var(n[2], ("bint", 2))),)))
     T["cat_binder"] = (3, lambda n: binary("add", cat(n[0], (L("x", n[1], n[2]), L("y", n[1], n[2])), n[1]), reduce_("add", L("z", n[1], n[0]), ((n[1], 2),)) if False else num(1.0)))
     T["cat_reduce"] = (3, lambda n: reduce_("add", cat(n[0], (L("x", n[1], n[2]), L("y", n[1], n[2])), n[1]), ((n[2], 2),)))
